@@ -19,6 +19,7 @@ BUDGET = {
     "quick": {"workers": 16, "cases": 170, "secs": 60, "min_cases": 1360},
     "thorough": {"workers": 16, "rounds": 4, "cases": 520, "secs": 420, "min_cases": 16640},
 }
+BUILD_VERDICTS = ("blackbox_definition_changed",)  # the registry is part of this property (see gen.circuits.Misbehaved)
 ANCHORS = ["io:circuit_to_verilog", "io:verilog_to_circuit", "io:to_file", "io:from_file"]
 
 BBDEFS = [
@@ -141,14 +142,19 @@ def check(case, ctx):
     snap = snapshot(c)
     what = f"round trip (behavioral={beh}{', file' if case['file'] else ''})"
     if case["file"]:
-        path = os.path.join(ctx.scratch, f"{c.name}.v")
+        # the extension decides the format unless `fmt` is given; an explicit fmt overrides any extension
+        ext = [".v", ".v", ".vg", ".txt", ".bench", ""][len(cd["nodes"]) % 6]
+        path = os.path.join(ctx.scratch, f"{c.name}{ext}")
         ok, r = ctx.call(cg.to_file, c, path, behavioral=beh)
-        if ok:
+        c2, text = r, ""
+        if ok and ext == ".v":
             ok, c2 = ctx.call(cg.from_file, path, blackboxes=bbtypes)
+        elif ok:
+            ok, c2 = ctx.call(cg.from_file, path, fmt="verilog", blackboxes=bbtypes)
+            ctx.count(f"file_ext_with_explicit_fmt:{ext or 'none'}")
+        if os.path.exists(path):
             text = open(path).read()
             os.unlink(path)
-        else:
-            c2, text = r, ""
         ctx.count("via_file")
     else:
         ok, text = ctx.call(cg.io.circuit_to_verilog, c, behavioral=beh)
